@@ -203,6 +203,12 @@ class Env(object):
                 self.assign(obj, a[1], a[2])
             elif a[0] == "raise":
                 raise RuntimeError("user exception in " + which)
+            elif a[0] == "append_new" and getattr(self, "append_armed", False):
+                # (only in the last call of a scenario: the population the scenario describes changes)
+                self.append_armed = False
+                with vsc.raw_mode():
+                    lst = getattr(obj, a[1])
+                lst.append(self.ns[a[2]]())
 
     def name_of(self, obj):
         for k, v in self.vars.items():
@@ -442,6 +448,9 @@ class Env(object):
                 rl.append(conv(op["items"][0]))
             else:
                 rl.extend([conv(it) for it in op["items"]])
+            return {}
+        if k == "arm_append":
+            self.append_armed = True
             return {}
         if k == "seed":
             o.set_randstate(vsc.RandState.mkFromSeed(op["seed"]) if hasattr(vsc.RandState, "mkFromSeed") else vsc.RandState(op["seed"]))
